@@ -118,6 +118,13 @@ func main() {
 			fmt.Println("variable-index proven", vp, "unproven", vu)
 			return
 		}
+		if *dump == "prefs" {
+			c := &Ctx{P: p, R: newReport("dump", "quick", 0)}
+			for _, s := range pfSites(c) {
+				fmt.Printf("%-20s %-50s -> %-50s %s %s\n", s.how, funcKey(s.fn), s.callee, s.tname, p.pos(s.call.Pos()))
+			}
+			return
+		}
 		if *dump == "ro" {
 			c := &Ctx{P: p, R: newReport("dump", "quick", 0)}
 			dumpCensus(c)
